@@ -599,6 +599,58 @@ impl State {
                 self.dict_mut().add_avp(AvpDefinition { code: c, vendor_id: v, name: n, avp_type: t, m_flag: *m == "1" });
                 "ok".into()
             }
+            ["parname", n, name] => {
+                // n threads make their by-name lookup on the current dictionary object at the same moment (after a `dadd` it
+                // is a fresh object nobody has looked anything up in yet): they all get the answer one thread alone gets
+                let (n, name) = match (n.parse::<usize>().ok(), unhex_str(name)) {
+                    (Some(a), Some(b)) => (a.clamp(1, 64), b),
+                    _ => return "bad-op".into(),
+                };
+                let barrier = Arc::new(std::sync::Barrier::new(n));
+                let hs: Vec<_> = (0..n)
+                    .map(|_| {
+                        let (b, d, nm) = (barrier.clone(), self.dict.clone(), name.clone());
+                        std::thread::spawn(move || {
+                            b.wait();
+                            match Avp::from_name(&nm, Unsigned32::new(7).into(), d) {
+                                Ok(a) => format!("ok:{}:{}:{}", a.get_code(), a.get_vendor_id().map(|v| v.to_string()).unwrap_or_else(|| "-".into()), a.get_flags().mandatory as u8),
+                                Err(_) => "err".to_string(),
+                            }
+                        })
+                    })
+                    .collect();
+                let rs: Vec<String> = hs.into_iter().map(|h| h.join().unwrap_or_else(|_| "panic".into())).collect();
+                let alone = match Avp::from_name(&name, Unsigned32::new(7).into(), self.dict.clone()) {
+                    Ok(a) => format!("ok:{}:{}:{}", a.get_code(), a.get_vendor_id().map(|v| v.to_string()).unwrap_or_else(|| "-".into()), a.get_flags().mandatory as u8),
+                    Err(_) => "err".to_string(),
+                };
+                if rs.iter().all(|r| *r == alone) {
+                    alone.split(':').next().unwrap().to_string()
+                } else {
+                    format!("{} !threads-differ:{}", alone.split(':').next().unwrap(), rs.join(","))
+                }
+            }
+            ["gdstorm", ms] => {
+                // for the next `ms` milliseconds another thread keeps taking the write lock of the library's public,
+                // process-wide default dictionary (adding a definition under a reserved key): whatever this thread does
+                // meanwhile must neither wait for it for ever nor see it
+                let ms: u64 = match ms.parse() {
+                    Ok(x) => x,
+                    Err(_) => return "bad-op".into(),
+                };
+                std::thread::spawn(move || {
+                    let t0 = std::time::Instant::now();
+                    let mut k = 0u32;
+                    while t0.elapsed() < std::time::Duration::from_millis(ms) {
+                        if let Ok(mut g) = diameter::dictionary::DEFAULT_DICT.write() {
+                            g.add_avp(AvpDefinition { code: 900100 + (k % 8), vendor_id: Some(424242), name: format!("Storm-{}", k % 8), avp_type: diameter::avp::AvpType::Unsigned32, m_flag: false });
+                        }
+                        k = k.wrapping_add(1);
+                        std::thread::sleep(std::time::Duration::from_micros(30));
+                    }
+                });
+                "ok".into()
+            }
             ["gdadd", c, v, n, t, m] => {
                 // a definition added to the library's process-wide default dictionary (a public, mutable global)
                 let (c, v, n, t) = match (c.parse::<u32>().ok(), p_vendor(v), unhex_str(n), type_of_name(t)) {
@@ -970,9 +1022,9 @@ impl State {
                 }
             }
             ["enc"] => {
-                let mut v = Vec::new();
+                let mut v = Trickle::new();
                 match self.msg.encode_to(&mut v) {
-                    Ok(()) => format!("ok {}", hexd(&v)),
+                    Ok(()) => format!("ok {}", hexd(&v.acc)),
                     Err(_) => "err".into(),
                 }
             }
@@ -1248,6 +1300,13 @@ impl State {
                 }
                 first
             }
+            ["iomode", n] => match n.parse::<u32>() {
+                Ok(n) => {
+                    crate::sio::IOMODE.with(|m| m.set(n));
+                    ".".into()
+                }
+                Err(_) => "bad-op".into(),
+            },
             ["amode", n] => match n.parse::<u32>() {
                 Ok(n) => {
                     AMODE.with(|m| m.set(n));
@@ -1463,7 +1522,12 @@ impl State {
                             use chrono::TimeZone;
                             req.add_avp(55, None, 0, diameter::avp::Time::new(chrono::Utc.with_ymd_and_hms(1850, 1, 1, 0, 0, 0).unwrap()).into());
                         }
-                        let r = client.send_message(req).await;
+                        // (a send that cannot finish - the stream never has room again - is abandoned after an hour of virtual
+                        // time, like an application would; it counts as a failed send)
+                        let r = match tokio::time::timeout(std::time::Duration::from_secs(3600), client.send_message(req)).await {
+                            Ok(r) => r,
+                            Err(_) => Err(diameter::Error::ClientError("send abandoned by the harness".into())),
+                        };
                         sync_hooks(&ulog);
                         let registered = count_reg(&ulog) > before;
                         ulog.lock().unwrap().push(format!("ret:{}:{}", i, if r.is_ok() { "ok" } else { "err" }));
@@ -1572,6 +1636,47 @@ impl State {
                     }
                 }
                 sums.join(",")
+            }
+            ["psweep", t, lo, n, blk, threads] => {
+                // the blocks of a range swept by several threads at the same time (each block by one thread, all threads
+                // released together): every block's checksum is what one thread alone computes
+                let (lo, n, blk, th) = match (lo.parse::<u64>().ok(), n.parse::<u64>().ok(), blk.parse::<u64>().ok(), threads.parse::<usize>().ok()) {
+                    (Some(a), Some(b), Some(c), Some(d)) if c > 0 && d > 0 => (a, b, c, d.min(64)),
+                    _ => return "bad-op".into(),
+                };
+                let nb = (n / blk) as usize;
+                let barrier = Arc::new(std::sync::Barrier::new(th));
+                let t = t.to_string();
+                let hs: Vec<_> = (0..th)
+                    .map(|w| {
+                        let (b, t) = (barrier.clone(), t.clone());
+                        std::thread::spawn(move || {
+                            b.wait();
+                            let mut out = vec![];
+                            let mut k = w;
+                            while k < nb {
+                                out.push((k, sweep_fold(&t, lo + k as u64 * blk, blk)));
+                                k += th;
+                            }
+                            out
+                        })
+                    })
+                    .collect();
+                let mut sums: Vec<Option<u64>> = vec![None; nb];
+                for h in hs {
+                    match h.join() {
+                        Ok(v) => {
+                            for (k, s) in v {
+                                sums[k] = s;
+                            }
+                        }
+                        Err(_) => return "panic".into(),
+                    }
+                }
+                if sums.iter().any(|s| s.is_none()) {
+                    return "bad-op".into();
+                }
+                sums.iter().map(|s| s.unwrap().to_string()).collect::<Vec<_>>().join(",")
             }
             ["deca", h] => match unhex(h) {
                 Some(b) => {
@@ -1687,65 +1792,102 @@ impl<'a> std::io::Seek for Frag<'a> {
     }
 }
 
+/// the writing side of `rmode`: a writer that takes at most so many octets per call (mode 0: everything). Whatever it
+/// takes per call, a successful encode has handed it every octet.
+pub struct Trickle {
+    pub acc: Vec<u8>,
+    calls: usize,
+    mode: u32,
+}
+
+impl Trickle {
+    pub fn new() -> Trickle {
+        Trickle { acc: Vec::new(), calls: 0, mode: RMODE.with(|m| m.get()) }
+    }
+}
+
+impl std::io::Write for Trickle {
+    fn write(&mut self, b: &[u8]) -> std::io::Result<usize> {
+        let cap = match self.mode {
+            0 => b.len(),
+            1 => 1,
+            2 => 2,
+            3 => 3,
+            4 => [1usize, 2, 3, 5, 7][self.calls % 5],
+            5 => [7usize, 1][self.calls % 2],
+            6 => 5 - self.acc.len() % 5,
+            7 => 7 - self.acc.len() % 7,
+            _ => b.len(),
+        };
+        self.calls += 1;
+        let n = cap.min(b.len());
+        self.acc.extend_from_slice(&b[..n]);
+        Ok(n)
+    }
+    fn flush(&mut self) -> std::io::Result<()> {
+        Ok(())
+    }
+}
+
 /* ---------- C17: fixed-size types, one value at a time and folded over ranges ---------- */
 
 /// decode the octets with the type's own `decode_from`, observe through the public accessor, encode back
 /// returns (observable text, observable as a number, re-encoded octets or None on error)
 fn fx_one(t: &str, b: &[u8]) -> Option<(String, u64, Option<Vec<u8>>)> {
     let mut c = rd(b);
-    let mut e = Vec::new();
+    let mut e = Trickle::new();
     Some(match t {
         "u32" => {
             let v = Unsigned32::decode_from(&mut c).ok()?;
-            let r = v.encode_to(&mut e).ok().map(|_| e);
+            let r = v.encode_to(&mut e).ok().map(|_| e.acc);
             (format!("u32:{}", v.value()), v.value() as u64, r)
         }
         "i32" => {
             let v = Integer32::decode_from(&mut c).ok()?;
-            let r = v.encode_to(&mut e).ok().map(|_| e);
+            let r = v.encode_to(&mut e).ok().map(|_| e.acc);
             (format!("i32:{}", v.value()), v.value() as i64 as u64, r)
         }
         "enum" => {
             let v = Enumerated::decode_from(&mut c).ok()?;
-            let r = v.encode_to(&mut e).ok().map(|_| e);
+            let r = v.encode_to(&mut e).ok().map(|_| e.acc);
             (format!("enum:{}", v.value()), v.value() as i64 as u64, r)
         }
         "f32" => {
             let v = Float32::decode_from(&mut c).ok()?;
-            let r = v.encode_to(&mut e).ok().map(|_| e);
+            let r = v.encode_to(&mut e).ok().map(|_| e.acc);
             (format!("f32:{:08x}", v.value().to_bits()), v.value().to_bits() as u64, r)
         }
         "time" => {
             let v = Time::decode_from(&mut c).ok()?;
-            let r = v.encode_to(&mut e).ok().map(|_| e);
+            let r = v.encode_to(&mut e).ok().map(|_| e.acc);
             let ts = v.value().timestamp();
             (format!("time:{}.{}", ts, v.value().timestamp_subsec_nanos()), ts as u64, r)
         }
         "ipv4" => {
             let v = IPv4::decode_from(&mut c).ok()?;
-            let r = v.encode_to(&mut e).ok().map(|_| e);
+            let r = v.encode_to(&mut e).ok().map(|_| e.acc);
             let shown = format!("{}", v);
             let num = shown.parse::<Ipv4Addr>().map(|x| u32::from(x) as u64).unwrap_or(u64::MAX);
             (format!("ipv4:{}", shown), num, r)
         }
         "u64" => {
             let v = Unsigned64::decode_from(&mut c).ok()?;
-            let r = v.encode_to(&mut e).ok().map(|_| e);
+            let r = v.encode_to(&mut e).ok().map(|_| e.acc);
             (format!("u64:{}", v.value()), v.value(), r)
         }
         "i64" => {
             let v = Integer64::decode_from(&mut c).ok()?;
-            let r = v.encode_to(&mut e).ok().map(|_| e);
+            let r = v.encode_to(&mut e).ok().map(|_| e.acc);
             (format!("i64:{}", v.value()), v.value() as u64, r)
         }
         "f64" => {
             let v = Float64::decode_from(&mut c).ok()?;
-            let r = v.encode_to(&mut e).ok().map(|_| e);
+            let r = v.encode_to(&mut e).ok().map(|_| e.acc);
             (format!("f64:{:016x}", v.value().to_bits()), v.value().to_bits(), r)
         }
         "ipv6" => {
             let v = IPv6::decode_from(&mut c).ok()?;
-            let r = v.encode_to(&mut e).ok().map(|_| e);
+            let r = v.encode_to(&mut e).ok().map(|_| e.acc);
             let shown = format!("{}", v);
             let oct = shown.parse::<Ipv6Addr>().map(|x| hex(&x.octets())).unwrap_or_else(|_| "?".into());
             (format!("ipv6:{}", oct), 0, r)
@@ -1810,6 +1952,11 @@ struct FaultWriter {
 }
 
 impl std::io::Write for FaultWriter {
+    /// a gathered write is served like one `write` of all the slices in order (short counts may end inside any slice)
+    fn write_vectored(&mut self, bufs: &[std::io::IoSlice<'_>]) -> std::io::Result<usize> {
+        let all: Vec<u8> = bufs.iter().flat_map(|b| b.iter().copied()).collect();
+        self.write(&all)
+    }
     fn write(&mut self, b: &[u8]) -> std::io::Result<usize> {
         self.calls += 1;
         if b.is_empty() {
